@@ -1059,3 +1059,155 @@ Proof.
   destruct (run2_alone cA cB ops (init cA stepsA) (init cB stepsB)) as (I1 & I2 & I3 & I4).
   rewrite run2_length, Nat.eqb_refl, I1, I2, I3, I4, !history_ok_run. reflexivity.
 Qed.
+
+(* ---------- reads on the closed wrapper itself ---------- *)
+Lemma stack_read_length ls : forall k r y ls' r', stack_read k ls r = (y, ls', r') -> length ls' = length ls.
+Proof.
+  induction ls as [|l lo IH]; intros k r y ls' r' H.
+  - cbn [stack_read] in H. destruct (sread k r) as [o r0]. inversion H; reflexivity.
+  - cbn [stack_read] in H.
+    destruct (lclosed l); [inversion H; reflexivity|].
+    destruct (Nat.eqb k 0).
+    { destruct (lbuf l); inversion H; reflexivity. }
+    destruct (lbuf l).
+    + destruct (lerr l); [inversion H; reflexivity|].
+      destruct (bufsize <=? k).
+      * destruct (stack_read k lo r) as [[o lo'] r0] eqn:E. inversion H; subst. cbn [length]. now rewrite (IH _ _ _ _ _ E).
+      * destruct (stack_read bufsize lo r) as [[[c0 oe] lo'] r0] eqn:E.
+        destruct c0; inversion H; subst; cbn [length]; now rewrite (IH _ _ _ _ _ E).
+    + inversion H; reflexivity.
+Qed.
+
+Lemma fill_loop_length i : forall lo r y lo' r', fill_loop i lo r = (y, lo', r') -> length lo' = length lo.
+Proof.
+  induction i as [|i IH]; intros lo r y lo' r' H; cbn [fill_loop] in H.
+  - inversion H; reflexivity.
+  - destruct (stack_read bufsize lo r) as [[[c0 oe] lo1] r1] eqn:E.
+    pose proof (stack_read_length _ _ _ _ _ _ E) as HL.
+    destruct oe; [inversion H; subst; exact HL|].
+    destruct c0; [|inversion H; subst; exact HL].
+    rewrite <- HL. exact (IH _ _ _ _ _ H).
+Qed.
+
+Lemma has_content_nonempty l lo r o ls' r' : has_content (l :: lo) r = (o, ls', r') -> ls' <> [].
+Proof.
+  cbn [has_content]. intros H.
+  destruct (lclosed l); [inversion H; discriminate|].
+  destruct (lbuf l); [|inversion H; discriminate].
+  destruct (lerr l); [inversion H; discriminate|].
+  destruct (fill_loop max_empty_reads lo r) as [[[c0 oe] lo1] r1].
+  destruct c0; inversion H; discriminate.
+Qed.
+
+Lemma stack_close_top_closed b l lo e ls' n :
+  stack_close b (l :: lo) = (e, ls', n) -> exists l' lo', ls' = l' :: lo' /\ lclosed l' = true.
+Proof.
+  cbn [stack_close]. destruct (lclosed l) eqn:E; intros H.
+  - inversion H; subst. now exists l, lo.
+  - destruct (stack_close b lo) as [[e0 lo0] n0]. inversion H; subst. now eexists _, _.
+Qed.
+
+(* the model's state against the walker's: a replaced body has at least one layer; a closed wrapper held by the caller
+   is a closed top layer *)
+Definition Rtop (c : cfg) (w top : bool) (s : st) : Prop :=
+  s_body s = true /\ (w = true -> s_ls s <> []) /\
+  (top = true -> exists l lo, s_ls s = l :: lo /\ lclosed l = true).
+
+Lemma closed_reads_fail_nil c ops : forall w outs, c_nil c = true -> closed_reads_fail c w false ops outs = true.
+Proof.
+  induction ops as [|o ops IH]; intros w outs Hn; [reflexivity|].
+  destruct o; destruct outs as [|x outs]; cbn [closed_reads_fail]; try reflexivity.
+  - cbn [andb]. now apply IH.
+  - cbn [negb orb andb]. now apply IH.
+  - rewrite Hn. cbn [negb]. rewrite andb_false_r. cbn [orb]. now apply IH.
+Qed.
+
+Lemma step_Rtop_has c s w top x s1 : c_nil c = false -> Rtop c w top s -> has_body c s = (x, s1) ->
+  Rtop c (w || probing c) (top && negb (probing c)) s1.
+Proof.
+  intros Hn (Hb & Hw & Ht) H. unfold has_body in H. unfold probing.
+  destruct (0 <? c_cl c)%Z.
+  { inversion H; subst. cbn [negb andb]. rewrite orb_false_r, andb_true_r. now repeat split. }
+  destruct (c_hdr c).
+  { inversion H; subst. cbn [negb andb]. rewrite orb_false_r, andb_true_r. now repeat split. }
+  rewrite Hb in H. cbn [negb andb] in *.
+  destruct (has_content (fresh_layer :: s_ls s) (s_r s)) as [[o ls'] r'] eqn:E. inversion H; subst.
+  rewrite orb_true_r, andb_false_r. unfold Rtop. cbn [s_body s_ls]. repeat split.
+  - intros _. exact (has_content_nonempty _ _ _ _ _ _ E).
+  - discriminate.
+Qed.
+
+Lemma step_Rtop_read c s w top k x s1 : Rtop c w top s -> do_read k s = (x, s1) ->
+  Rtop c w top s1 /\ (negb top || read_refused x) = true.
+Proof.
+  intros (Hb & Hw & Ht) H. unfold do_read in H. rewrite Hb in H. cbn [negb] in H.
+  destruct (stack_read k (s_ls s) (s_r s)) as [[[d oe] ls'] r'] eqn:E. inversion H; subst.
+  pose proof (stack_read_length _ _ _ _ _ _ E) as HL.
+  destruct top.
+  - destruct (Ht eq_refl) as (l & lo & Hls & Hc). rewrite Hls in E. cbn [stack_read] in E. rewrite Hc in E.
+    inversion E; subst. split; [|reflexivity].
+    unfold Rtop. cbn [s_body s_ls]. rewrite <- Hls. repeat split; auto.
+  - split; [|reflexivity]. unfold Rtop. cbn [s_body s_ls]. repeat split; [|discriminate].
+    intros Hw1 Hl. specialize (Hw Hw1). rewrite Hl in HL. cbn [length] in HL.
+    destruct (s_ls s); [now apply Hw|discriminate].
+Qed.
+
+Lemma step_Rtop_close c s w top x s1 : c_nil c = false -> Rtop c w top s -> do_close c s = (x, s1) ->
+  Rtop c w (top || (w && negb (c_nil c))) s1.
+Proof.
+  intros Hn (Hb & Hw & Ht) H. unfold do_close in H. rewrite Hb in H. cbn [negb] in H. rewrite Hn. cbn [negb].
+  rewrite andb_true_r.
+  destruct (stack_close (if s_stream s then c_cerr c else None) (s_ls s)) as [[e ls'] n] eqn:E. inversion H; subst.
+  unfold Rtop. cbn [s_body s_ls].
+  destruct (s_ls s) as [|l lo] eqn:Hls.
+  - (* no wrapper: the caller closes the stream itself *)
+    cbn [stack_close] in E. inversion E; subst. repeat split.
+    + intros Hw1. now specialize (Hw Hw1).
+    + intros Hor. destruct top; [destruct (Ht eq_refl) as (? & ? & Hd & _); discriminate|].
+      cbn [orb] in Hor. now specialize (Hw Hor).
+  - destruct (stack_close_top_closed _ _ _ _ _ _ E) as (l' & lo' & -> & Hc). repeat split.
+    + intros _. discriminate.
+    + intros _. now exists l', lo'.
+Qed.
+
+Lemma run_closed_reads_fail c : c_nil c = false -> forall ops s w top, Rtop c w top s ->
+  closed_reads_fail c w top ops (fst (run c ops s)) = true.
+Proof.
+  intros Hn. induction ops as [|o ops IH]; intros s w top HR; [reflexivity|].
+  cbn [run]. destruct (step c o s) as [x s1] eqn:Es. destruct (run c ops s1) as [xs s2] eqn:E. cbn [fst].
+  assert (Hxs : xs = fst (run c ops s1)) by now rewrite E.
+  destruct o; cbn [step] in Es; cbn [closed_reads_fail]; rewrite Hxs.
+  - apply IH. exact (step_Rtop_has _ _ _ _ _ _ Hn HR Es).
+  - destruct (step_Rtop_read _ _ _ _ _ _ _ HR Es) as [HR1 Hx]. rewrite Hx. cbn [andb]. now apply IH.
+  - apply IH. exact (step_Rtop_close _ _ _ _ _ _ Hn HR Es).
+Qed.
+
+(* reads on the closed wrapper itself fail, whatever their size: every history of the model *)
+Theorem closed_reads_fail_run c steps ops :
+  closed_reads_fail c false false ops (fst (run c ops (init c steps))) = true.
+Proof.
+  destruct (c_nil c) eqn:Hn; [now apply closed_reads_fail_nil|].
+  apply run_closed_reads_fail; [exact Hn|].
+  unfold Rtop, init. rewrite Hn. cbn [s_body s_ls]. repeat split; discriminate.
+Qed.
+
+Theorem history_strict_ok_run c steps ops :
+  history_strict_ok c steps ops (fst (run c ops (init c steps))) (s_closes (snd (run c ops (init c steps)))) = true.
+Proof. unfold history_strict_ok. now rewrite history_ok_run, closed_reads_fail_run. Qed.
+
+Theorem pair_strict_ok_run2 cA stepsA cB stepsB ops :
+  let r := run2 cA cB ops (init cA stepsA) (init cB stepsB) in
+  pair_strict_ok cA stepsA cB stepsB ops (fst r) (s_closes (fst (snd r))) (s_closes (snd (snd r))) = true.
+Proof.
+  cbv zeta. unfold pair_strict_ok. rewrite pair_ok_run2.
+  destruct (run2_alone cA cB ops (init cA stepsA) (init cB stepsB)) as (I1 & _ & I3 & _).
+  now rewrite I1, I3, !closed_reads_fail_run.
+Qed.
+
+(* a zero-length read right after Close fails; after a later probe has wrapped the closed body again it may return 0, nil *)
+Example ex_zero_read_after_close :
+  let c := mkCfg (-1) false false None in
+  let steps := [([104; 105], Some EOF)] in
+  fst (run c [OpHas; OpClose; OpRead 0; OpHas; OpRead 0] (init c steps)) =
+  [OHas true; OClose None; ORead [] (Some EUnexpectedEOF); OHas false; ORead [] None].
+Proof. vm_compute. reflexivity. Qed.
